@@ -7,8 +7,10 @@ clear_config(clear_constants=True) are applied (on a replay) and the observation
 the pristine one; thorough additionally compares the pristine vector and a stratified set of histories with
 genuinely fresh subprocesses (validating the harness reset itself).
 """
+import contextlib
 import io
 import json
+import signal
 import os
 import subprocess
 import sys
@@ -52,10 +54,25 @@ def setup():
   F, USER = f, user
 
 
+@contextlib.contextmanager
+def deadline(seconds):
+  """Raises TimeoutError in the main thread if the block does not finish in time (a blocked lock acquire is
+  interruptible by a signal handler that raises)."""
+  def handler(signum, frame):
+    raise TimeoutError('did not return within %ss' % seconds)
+  old = signal.signal(signal.SIGALRM, handler)
+  signal.setitimer(signal.ITIMER_REAL, seconds)
+  try:
+    yield
+  finally:
+    signal.setitimer(signal.ITIMER_REAL, 0)
+    signal.signal(signal.SIGALRM, old)
+
+
 OPS = ['parse_plain', 'parse_scoped', 'parse_macro', 'parse_import', 'parse_include', 'parse_failing', 'bind_ok',
        'bind_rejected', 'call_plain', 'call_scoped', 'use_singleton', 'finalize', 'unlock_ok', 'unlock_raising',
        'const_K', 'const_aX', 'const_bX', 'interactive_const_X', 'const_dup', 'enter_interactive',
-       'exit_interactive']
+       'exit_interactive', 'operative_str_fails', 'config_str_fails', 'const_gin_namespace']
 KEYS = ['c20.f.a', 'c20.f.b', 's/c20.f.a', 'c20.user.x', 'k/gin.singleton.constructor']
 SING = 'c20.user.x = @k/gin.singleton()\nk/gin.singleton.constructor = @c20.Obj\n'
 
@@ -115,6 +132,12 @@ def do_op(op):
         gin.constant('X', 3)
     elif op == 'const_dup':
       gin.constant('c20.K', 4)
+    elif op == 'operative_str_fails':
+      gin.operative_config_str(max_line_length='80')      # the formatter raises (TypeError) if anything was recorded
+    elif op == 'config_str_fails':
+      gin.config_str(max_line_length='80')
+    elif op == 'const_gin_namespace':
+      gin.constant('gin.contrib.DTYPE', 'dt')
     elif op == 'enter_interactive':
       gin.enter_interactive_mode()
     elif op == 'exit_interactive':
@@ -143,6 +166,8 @@ def model_constants(hist):
       consts['b.X'] = 2
     elif op == 'interactive_const_X':
       consts['X'] = 3
+    elif op == 'const_gin_namespace' and (interactive or not _matches(consts, 'gin.contrib.DTYPE')):
+      consts['gin.contrib.DTYPE'] = 'dt'
   return consts
 
 
@@ -189,6 +214,7 @@ def observe():
 
 
 _PRISTINE = {}
+_HANGS = {'n': 0}
 
 
 def pristine():
@@ -226,7 +252,33 @@ class World:
     return self._canon if self._canon is not None else harness.internal_state()
 
   def apply(self, op, res, hist):
+    try:
+      with deadline(60):
+        return self._apply(op, res, hist)
+    except TimeoutError as e:
+      harness.hard_reset()
+      self._canon = ('hung', tuple(hist))
+      if res is not None:
+        res.violation('hang', 'history %r: %s (an earlier failed call left the configuration unusable)' % (hist, e),
+                      {'history': list(hist), 'clear_constants': False})
+
+  def _apply(self, op, res, hist):
     out = do_op(op)
+    leaked = harness.held_locks()
+    if leaked:
+      # a lock held with no call in progress: confirm through the public API that clear_config() cannot complete
+      # (confirmed at most twice per worker process, each confirmation costs the full deadline)
+      if res is not None and _HANGS['n'] < 2:
+        _HANGS['n'] += 1
+        try:
+          with deadline(3):
+            gin.clear_config()
+        except TimeoutError as e:
+          res.violation('clear_hangs', 'history %r: clear_config() %s; locks held at quiescence: %r' %
+                        (hist, e, leaked), {'history': list(hist), 'clear_constants': False})
+      harness.hard_reset()
+      self._canon = ('lock_leaked',)
+      return
     self.hist.append(op)
     self._canon = (harness.internal_state(), tuple(sorted(cfg._CONSTANTS._selector_map)))
     if res is None:
@@ -245,12 +297,20 @@ class World:
         for o in self.hist:
           do_op(o)
       try:
-        gin.clear_config(clear_constants=True) if variant else gin.clear_config()
+        with deadline(5):
+          gin.clear_config(clear_constants=True) if variant else gin.clear_config()
         cleared = 'ok'
       except Exception as e:  # pylint: disable=broad-except
         cleared = 'raised %r' % (e,)
       art = {'history': list(hist), 'clear_constants': variant}
       if cleared != 'ok':
+        if 'TimeoutError' in cleared:
+          # the lock is still held: make the state usable again for the rest of this worker
+          lk = vars(cfg).get('_OPERATIVE_CONFIG_LOCK')
+          try:
+            lk.release()
+          except Exception:  # pylint: disable=broad-except
+            pass
         res.violation('clear_raises:%s' % ('consts' if variant else 'plain'),
                       'history %r: clear_config(clear_constants=%s) %s' % (hist, variant, cleared), art)
         continue
